@@ -630,7 +630,8 @@ def g_rewriter_fix(ctx):
         ba = bool_arms(g, c)
         if ba is None:
             continue
-        tblocks = g.reachable_from(ba["true"], stop=[ba["false"]])
+        from ..query import reach_with_variants
+        tblocks = reach_with_variants(g, ba["true"], stop=[ba["false"]])
         roots = deep_roots(prog, g, c.args[0])
         if any("fix" in field_path(o.proj) for o in roots):
             same = [i for i in ins if i.fn is g]
@@ -696,8 +697,10 @@ def g_multi_nonempty(ctx):
     for pat in (r"^ast_grep_core::meta_var::get_var_bytes_impl$", r"^ast_grep_core::replacer::template::maybe_get_var$", None):
         f = prog.one_fn(pat) if pat else _rewrite_compute(prog)
         sites = [c.bb for c in f.calls if c.name == "index" and "Vec" in c.best and any(o.kind == "call" and o.ref.name in ("get_multiple_matches", "get_nodes_from_env") for o in deep_roots(prog, f, c.args[0]))]
-        res.append(bool(sites) and _on_nonempty_arm(prog, f, sites))
-    return all(res), "index sites lie on the non-empty arm of nodes.is_empty(): %s" % res
+        # a function that no longer indexes the node list (`nodes.first()?`) has nothing to guard
+        res.append(None if not sites else _on_nonempty_arm(prog, f, sites))
+    n = sum(1 for r in res if r is not None)
+    return all(r is not False for r in res) and n >= 2, "index sites lie on the non-empty arm of nodes.is_empty(): %s (None = the function has no such index any more)" % res
 
 
 @guard("off_rules_never_scanned")
